@@ -146,6 +146,8 @@ impl Cur {
 
 /// predicates that a returned piece `p` must satisfy as the portion of `s` from la to lb
 fn check_piece(site: &str, s: &Cur, p: &Curve2, la: f64, lb: f64) -> Result<(), Failure> {
+    // the piece is a curve in its own right: its tables follow from its own vertices
+    derived_curve2_consistent(&format!("C04/{site}"), p)?;
     let tol = s.curve.tol();
     let total = s.total();
     let scale = s.model.scale();
